@@ -154,6 +154,19 @@ def _await_node(n) -> bool:
     return has_await(n.ast)
 
 
+def positive_form(test: ast.expr):
+    """(expression, flipped): `not X`, `a is not b`, `a != b`, `a not in b` as their positive counterpart with the
+    branches exchanged (`if entry is not sent: continue` / remove  ==  `if entry is sent: remove`)."""
+    flipped = False
+    while isinstance(test, ast.UnaryOp) and isinstance(test.op, ast.Not):
+        test, flipped = test.operand, not flipped
+    if isinstance(test, ast.Compare) and len(test.ops) == 1 and isinstance(test.ops[0], (ast.IsNot, ast.NotEq, ast.NotIn)):
+        op = {ast.IsNot: ast.Is, ast.NotEq: ast.Eq, ast.NotIn: ast.In}[type(test.ops[0])]()
+        test = ast.copy_location(ast.Compare(left=test.left, ops=[op], comparators=test.comparators), test)
+        flipped = not flipped
+    return test, flipped
+
+
 def revalidation(test: ast.expr, attr: str, key_txt: str):
     """If `test` re-reads <buf>.<attr> at key and compares by identity/equality: name of the compared value."""
     conj = test.values if isinstance(test, ast.BoolOp) and isinstance(test.op, ast.And) else [test]
@@ -322,13 +335,15 @@ def _removal_verdict(ctx: Ctx, f, g: CFG, node, key, rnodes, attr: str):
     for t in g.nodes:
         if t.kind != "test" or not all(g.dominates(t, r) for r in rnodes):
             continue
-        v = revalidation(t.ast, attr, key_txt)
+        pos_t, flipped = positive_form(t.ast)
+        v = revalidation(pos_t, attr, key_txt)
         if v is None:
             continue
-        false_starts = [s for s, lab in t.succ if lab == "f"]
+        lab_f, lab_t = ("t", "f") if flipped else ("f", "t")
+        false_starts = [s for s, lab in t.succ if lab == lab_f]
         if g.reach_avoiding(false_starts, lambda x: x in rnodes, lambda x, t=t: x is t, from_succ=False) is not None:
             continue
-        true_starts = [s for s, lab in t.succ if lab == "t"]
+        true_starts = [s for s, lab in t.succ if lab == lab_t]
         aw_between = False
         for s in true_starts:
             for x in g.nodes:
